@@ -29,7 +29,7 @@ W = 'circus.watcher:Watcher.'
 
 
 def check(run, ctx):
-    run.each(ctx, [r1, r2, r3, r5, r6, r7, r8])
+    run.each(ctx, [r1, r2, r3, r5, r6, r7, r8, r9])
 
 
 def _f(ctx):
@@ -179,16 +179,38 @@ def r3(run, ctx):
     for a in walk_local(f.node):
         if isinstance(a, ast.Assign) and len(a.targets) == 1 and isinstance(a.targets[0], ast.Name):
             src.setdefault(a.targets[0].id, []).append(a)
-    for name, want in (('added_wn', {'new_wn - current_wn | wn_with_changed_socket'}),
-                       ('deleted_wn', {'current_wn - new_wn - wn_with_changed_socket'}),
-                       ('maybechanged_wn', {'current_wn - deleted_wn'})):
+    # the three name sets as functions of (running now, in the new file, uses a changed
+    # socket): decided by evaluating the set algebra for one element of each class
+    CLASSES = (
+        ('an unchanged watcher', dict(current_wn=True, new_wn=True, wn_with_changed_socket=False),
+         dict(added_wn=False, deleted_wn=False, maybechanged_wn=True)),
+        ('a watcher removed from the file', dict(current_wn=True, new_wn=False, wn_with_changed_socket=False),
+         dict(added_wn=False, deleted_wn=True, maybechanged_wn=False)),
+        ('a watcher new in the file', dict(current_wn=False, new_wn=True, wn_with_changed_socket=False),
+         dict(added_wn=True, deleted_wn=False, maybechanged_wn=False)),
+        ('a running watcher whose socket section changed',
+         dict(current_wn=True, new_wn=True, wn_with_changed_socket=True),
+         dict(added_wn=True, deleted_wn=True)),
+    )
+    for name in ('added_wn', 'deleted_wn', 'maybechanged_wn'):
         defs = src.get(name, [])
-        ok = len(defs) == 1 and norm_text(defs[0].value).replace('(', '').replace(')', '') in want
         if not defs:
             raise AnalysisError('C12 R3: set %s not found in reload_from_config' % name)
-        run.check('R3', ok, '%s is defined from the name sets only' % name, f, defs[0],
-                  '%s = %s: watchers enter the %s set for reasons other than a name/socket '
-                  'difference' % (name, norm_text(defs[0].value), name))
+        run.check('R3', len(defs) == 1, '%s is defined once' % name, f, defs[0])
+    for label, env0, want in CLASSES:
+        env = dict(env0)
+        for name in ('added_wn', 'deleted_wn', 'maybechanged_wn'):
+            got = _set_member(src[name][0].value, env)
+            env[name] = got
+            if name in want:
+                run.check('R3', got is None or got == want[name],
+                          '%s: %s %s' % (label, 'in' if want[name] else 'not in', name), f,
+                          src[name][0],
+                          '%s = %s: %s is %s it - watchers are disturbed (or left alone) for '
+                          'reasons other than a name / socket difference'
+                          % (name, norm_text(src[name][0].value), label,
+                             'not in' if want[name] else 'in'),
+                          construct='NAME-SET %s' % name)
     for nm in ('current_wn', 'new_wn'):
         if nm not in src:
             raise AnalysisError('C12 R3: %s not found' % nm)
@@ -339,3 +361,74 @@ def r8(run, ctx):
               'of reload_from_config just calls set_numprocesses - if the surplus selection '
               'is off for some target (e.g. an empty slice for 0) the daemon does not run what '
               'the file says and later reloads see nothing to do')
+
+
+def _set_member(e, env):
+    """membership of one element in a set expression built with | & - from named sets"""
+    if isinstance(e, ast.Name):
+        return env.get(e.id)
+    if isinstance(e, ast.BinOp):
+        a, b = _set_member(e.left, env), _set_member(e.right, env)
+        if a is None or b is None:
+            return None
+        if isinstance(e.op, ast.BitOr):
+            return a or b
+        if isinstance(e.op, ast.BitAnd):
+            return a and b
+        if isinstance(e.op, ast.Sub):
+            return a and not b
+    return None
+
+
+def r9(run, ctx):
+    run.rule('R9', 'an edited socket section is applied: its watchers are stopped and re-created')
+    from sa.dataflow import reaching_defs
+    f = _f(ctx)
+    cfg = ctx.cfg(f)
+    rd = reaching_defs(ctx, f)
+    # (a) no test asks whether a SET is an element of a set of names (never true: the guard
+    # "watchers using a deleted socket" then fires for every socket that merely changed)
+    n = 0
+    for t in cfg.nodes:
+        if t.kind != 'test':
+            continue
+        for e in ast.walk(t.ast):
+            if isinstance(e, ast.Compare) and len(e.ops) == 1 and \
+                    isinstance(e.ops[0], (ast.In, ast.NotIn)) and isinstance(e.left, ast.Name):
+                n += 1
+                alts = rd.expand(t, e.left)
+                is_set = bool(alts) and all(
+                    isinstance(a.expr, (ast.Set, ast.SetComp)) or
+                    (isinstance(a.expr, ast.Call) and dotted(a.expr.func) in ('set', 'frozenset'))
+                    or (isinstance(a.expr, ast.BinOp) and
+                        isinstance(a.expr.op, (ast.BitOr, ast.BitAnd, ast.Sub)))
+                    for a in alts)
+                run.check('R9', not is_set, 'membership tests are asked of names, not of sets',
+                          f, t.ast, 'reload_from_config tests whether the SET %s is an element '
+                          'of %s: that is never true, so the "socket is deleted" error is raised '
+                          'for every watcher whose socket section merely changed - the edit is '
+                          'refused after the old socket was already closed'
+                          % (e.left.id, norm_text(e.comparators[0])), construct='SET-IN-SET')
+    # (b) a watcher re-created because its socket changed is removed first
+    SETS = ('current_wn', 'new_wn', 'wn_with_changed_socket')
+    env = {'current_wn': True, 'new_wn': True, 'wn_with_changed_socket': True}
+    loops = {}
+    for h in cfg.nodes:
+        if h.kind == 'iter' and isinstance(h.ast.iter, ast.Name) and \
+                h.ast.iter.id in ('deleted_wn', 'added_wn'):
+            loops[h.ast.iter.id] = h
+    if run.need('R9', list(loops) if len(loops) == 2 else [], 'the delete and add loops over watcher names', f):
+        res = {}
+        for nm, h in loops.items():
+            vals = [_set_member(a.expr, env) for a in rd.expand(h, h.ast.iter, stop=SETS)]
+            res[nm] = vals
+        added = any(v is True for v in res['added_wn'])
+        removed = all(v is True for v in res['deleted_wn']) and bool(res['deleted_wn'])
+        unknown = any(v is None for v in res['added_wn'] + res['deleted_wn'])
+        run.check('R9', unknown or not added or removed,
+                  'a running watcher that is re-created for a changed socket is stopped and '
+                  'removed first', f, loops['deleted_wn'].ast.iter,
+                  'a watcher whose socket section changed is added again without being stopped: '
+                  'two watchers of that name, the old workers keep the closed socket',
+                  construct='RECREATED-NOT-REMOVED')
+    run.count('R9', n, 2, 'membership tests in reload_from_config')
